@@ -42,6 +42,10 @@ pub const SNAP_FRAME: u32 = 105;
 /// upvalues_len)
 pub const SNAP_UPOWNER: u32 = 106;
 
+/// (1 when the loop's cached locals -- base, bytecode_ptr/len, constants_ptr/len, upvalues_ptr/len --
+/// are those of the record of the running frame, else 0; index of the frame)
+pub const SNAP_LOCALS: u32 = 107;
+
 /// Is `target` reached by the verifier's linear walk over `len` words at `ptr`?
 pub fn on_grid(ptr: *const u32, len: usize, target: usize) -> bool {
     let mut i = 0usize;
